@@ -76,6 +76,21 @@ class CheckContext:
         shutil.rmtree(sc, ignore_errors=True)
         return res, g
 
+    def simulate(self, module: str, cfg: Optional[str] = None, *, num: int = 200, depth: int = 8, workers: int = 4):
+        """Random behaviours of the specification (tlc -simulate), deeper than the exhaustive bound, as a forest of chains."""
+        from .tlc import parse_sim_traces
+        sc = scratch_dir(self.prop + "-sim")
+        try:
+            res = run_tlc(module, cfg, workers=workers, scratch=sc, coverage=False, timeout=3000,
+                          simulate=f"file={os.path.join(sc, 'tr')},num={num}", depth=depth, seed=self.seed + 1)
+            g = parse_sim_traces(sc)
+        finally:
+            shutil.rmtree(sc, ignore_errors=True)
+        self.tlc_runs.append({"module": module, "cfg": cfg or module, "mode": "simulate", "behaviours": len(g.init), "depth": depth,
+                              "edges": g.n_edges, "wall_s": round(res.wall_s, 1), "ok": res.ok})
+        self.transitions += g.n_edges
+        return g
+
     # ------------------------------------------------------------ engine R
     def replay(self, g: Graph, adapter, view, *, actions=None, edge_budget=None, label: str = "") -> ReplayStats:
         st = replay_graph(g, adapter, view, self.findings, self.prop, edge_budget=edge_budget, seed=self.seed,
